@@ -167,6 +167,39 @@ def _c04_tables(repo, t):
               "def fastOptimizerSteps : List String := " + lean_list(lean_str(x) for x in t["fastOptimizerSteps"]))
     ex.append("/-- `DISABLE_OR` of exp_transformers.py -/\n"
               "def disableOr : Bool := " + ("true" if t["disableOr"] else "false"))
+    t.setdefault("_extra", []).extend(_c10_tables(repo))
+    return t
+
+
+def _c10_tables(repo):
+    """C10: what QlassF.from_function does with a source string -- is it exec'd into the module's
+    own globals, and which locals are bound when `eval(name)` (implicit namespaces) runs."""
+    tree = _parse(repo, "qlasskit/qlassfun.py")
+    ff = _find_func(tree, "from_function")
+    a = ff.args
+    bound = [x.arg for x in a.posonlyargs + a.args + a.kwonlyargs]
+    exec_globals = False
+    eval_locals = None
+    for stmt in ff.body:
+        for node in ast.walk(stmt):
+            if isinstance(node, ast.Call) and isinstance(node.func, ast.Name):
+                if node.func.id == "exec" and len(node.args) == 2 and isinstance(node.args[1], ast.Call) \
+                        and isinstance(node.args[1].func, ast.Name) and node.args[1].func.id == "globals":
+                    exec_globals = True
+                if node.func.id == "eval" and len(node.args) == 1 and eval_locals is None:
+                    eval_locals = list(bound)
+        if isinstance(stmt, (ast.FunctionDef, ast.ClassDef)):
+            bound.append(stmt.name)
+        else:
+            for node in ast.walk(stmt):
+                if isinstance(node, ast.Name) and isinstance(node.ctx, ast.Store) and node.id not in bound:
+                    bound.append(node.id)
+    return [
+        "/-- `QlassF.from_function` contains `exec(f, globals())` -/\n"
+        "def fromFunctionExecsIntoGlobals : Bool := " + ("true" if exec_globals else "false"),
+        "/-- locals of `QlassF.from_function` bound when it calls `eval(name)` with implicit namespaces -/\n"
+        "def fromFunctionLocalsAtEval : List String := " + lean_list(lean_str(n) for n in (eval_locals or [])),
+    ]
 
 
 def render(t):
